@@ -335,7 +335,10 @@ func newWorld(cfg worldCfg) *world {
 		aud = mkSlice(cfg.spare, "api", "web")
 	}
 	w.devState = &op.DeviceAuthorizationState{ClientID: "web", Audience: aud, Scopes: []string{"openid"}}
-	co := cloneCors(saved.cors)
+	co := cloneCors(saved.cors) // the caller's own CORS policy differs from the package default
+	co.AllowedOrigins = []string{"https://app.example.com"}
+	co.AllowCredentials = false
+	co.AllowOriginFunc = nil
 	w.corsOpt = &co
 	return w
 }
@@ -343,8 +346,8 @@ func newWorld(cfg worldCfg) *world {
 // ---- snapshots
 
 type lv struct {
-	loc string
-	val int
+	Loc string `json:"loc"`
+	Val int    `json:"val"`
 }
 
 var cfields = []string{"CTransport", "CCheckRedirect", "CJar", "CTimeout"}
@@ -365,7 +368,7 @@ func (w *world) clientID(c *http.Client) int {
 // the observable fields of instance `inst` (kind: "prov", "legacy", "rp", "hc" or "").
 func (w *world) snapshot(inst int, kind string) []lv {
 	var out []lv
-	add := func(loc string, v int) { out = append(out, lv{loc, v}) }
+	add := func(loc string, v int) { out = append(out, lv{Loc: loc, Val: v}) }
 	for i, n := range epNames {
 		add("(LG (GEp "+n+"))", w.reg.id(epKey(*epField(op.DefaultEndpoints, i))))
 	}
